@@ -14,8 +14,8 @@ TLS_BASED = ["tls", "btls", "utls", "utlst"]
 
 def scenarios(tp):
     if tp == "utlst":           # a utls client of a plain tls server: the TLS leg of utls
-        return ["normal", "garbage2", "ctlflood"]
-    s = ["normal", "refused", "idle", "ctlflood"]
+        return ["normal", "garbage2", "ctlflood", "blocking"]
+    s = ["normal", "refused", "idle", "ctlflood", "blocking"]
     if tp in TCP_BASED:
         s.append("silent")
     if tp in ("tcp", "btcp"):
@@ -152,6 +152,8 @@ def stats(batch):
             st["crashes"] += 1
         elif o["op"] == "q":
             st["stuck"] += o.get("stk", 0)
+        elif o["op"] == "bq":
+            st["blocking_runs"] = st.get("blocking_runs", 0) + 1
         elif o["op"] != "env":
             st["api_calls"] += 1
             if o.get("ret") == -1 and o.get("err") == 11:
